@@ -53,6 +53,7 @@ type Stats struct {
 	Nontrivial  bool
 	Crashes     int
 	Leaked      bool
+	PorcupineUnknown int
 }
 
 type RunResult struct {
@@ -63,6 +64,7 @@ type RunResult struct {
 	Recorded   Plan
 	Stats      Stats
 	Harness    error
+	post       []func() ([]Violation, bool)
 }
 
 type runner struct {
@@ -84,6 +86,7 @@ type runner struct {
 	running int
 	crashes int
 	doneLines []string
+	post      []func() ([]Violation, bool)
 }
 
 func (r *runner) curInc() *Incarnation {
@@ -288,6 +291,15 @@ func RunScenario(t *testing.T, sc *Scenario, plan *Plan, ex *ExploreCfg) (res *R
 	synctest.Test(t, func(t *testing.T) {
 		runInBubble(t, sc, plan, ex, res)
 	})
+	// checks that need real time or their own goroutines (porcupine) run outside the bubble
+	for _, f := range res.post {
+		vs, unknown := f()
+		if unknown {
+			res.Stats.PorcupineUnknown++
+		}
+		res.Violations = dedupViolations(append(res.Violations, vs...))
+	}
+	res.post = nil
 	return res
 }
 
@@ -389,6 +401,7 @@ func runInBubble(t *testing.T, sc *Scenario, plan *Plan, ex *ExploreCfg, res *Ru
 	}
 
 	res.Violations = dedupViolations(r.viol)
+	res.post = r.post
 	res.Log = append([]string(nil), w.log...)
 	res.Digest = w.Digest()
 	res.Results = r.results
